@@ -823,6 +823,37 @@ def _iop(x, y, op):
     return (z, x)
 
 
+def _copy_independent(im, x, val):
+    import copy as _c
+    before = list(x)
+    out = []
+    for c in (x.copy(), _c.copy(x), im.M(list(x)), im.M(tuple(x))):
+        c[0, 0] = val
+        c.set_row(1, (val, val, val, val))
+        c.set_col(2, (val, 1.0, 2.0, 3.0))
+        c.origin = (val, val, val)
+        out.append(list(x) == before)  # the source must not change
+    y = im.M(before)
+    c = y.copy()
+    y[3, 3] = val
+    y.set_row(0, (val, 0.0, 0.0, 0.0))
+    out.append(list(c) == before)  # and the copy must not follow the source
+    return out
+
+
+def _ctor_independent(im, vals, val):
+    import numpy as np
+    src_list = list(vals)
+    arr = np.array(vals, dtype=np.float64)
+    a, b = im.M(src_list), im.M(arr)
+    src_list[0] = val
+    arr[5] = val
+    r1 = (list(a), list(b))
+    b[0, 1] = val
+    b.set_row(2, (val, val, val, val))
+    return (r1, arr.tolist())  # neither direction may leak
+
+
 def diff_matrix(d: Diff, n: int):
     import numpy as np
     g, r = d.gen, d.rng
@@ -835,6 +866,7 @@ def diff_matrix(d: Diff, n: int):
         d.call("Matrix44.__init__/bad", [r.choice([RX(()), RX((1.0,) * 15), RX((1.0,) * 17), RX(None), RX(((1, 2, 3, 4),) * 3)])],
                lambda im, x: im.M(x), cover="Matrix44.__init__")
         d.call("Matrix44.__init__/default", [], lambda im: im.M(), cover="Matrix44.__init__")
+        d.call("Matrix44.__init__/from-matrix", [("M!", m[1])], lambda im, x: im.M(x), cover="Matrix44.__init__")  # not a documented form
         for name, fn in (("transform", lambda im, mm, x: mm.transform(x)), ("transform_direction", lambda im, mm, x: mm.transform_direction(x)),
                          ("transform_direction/normalize", lambda im, mm, x: mm.transform_direction(x, True)),
                          ("ocs_to_wcs", lambda im, mm, x: mm.ocs_to_wcs(x)), ("ocs_from_wcs", lambda im, mm, x: mm.ocs_from_wcs(x)),
@@ -868,6 +900,9 @@ def diff_matrix(d: Diff, n: int):
             d.call(f"Matrix44.{name}", [m], fn)
         # determinant: explicit polynomial (Cython) vs LU (NumPy): compared relative to the Hadamard bound of the matrix
         d.call("Matrix44.determinant", [m], lambda im, x: [float(x.determinant()), _hadamard_f(list(x))], ulp=1 << 24)
+        # missing-copy aliasing: a copy, a matrix built from another matrix / a list / a numpy array must not share cells
+        d.call("Matrix44.copy/independent", [m, R(g.scalar())], _copy_independent, cover="Matrix44.copy")
+        d.call("Matrix44.__init__/independent", [R(list(m[1])), R(g.scalar())], _ctor_independent, cover="Matrix44.__init__")
         i, j = r.choice([0, 1, 2, 3, 4, -1, -5]), r.choice([0, 1, 2, 3, 4, -1])
         d.call("Matrix44.__getitem__", [m, R((i, j))], lambda im, x, idx: x[idx])
         d.call("Matrix44.__setitem__", [m, R((i, j)), R(g.scalar())], lambda im, x, idx, val: (x.__setitem__(idx, val), x)[1])
@@ -938,13 +973,16 @@ def diff_bezier(d: Diff, n: int):
             d.call(f"{cls}.control_points", [curve], lambda im, cv: cv.control_points)
             d.call(f"{cls}.reverse", [curve], lambda im, cv: cv.reverse())
             d.call(f"{cls}.transform", [curve, g.matrix()], lambda im, cv, m: cv.transform(m), ulp=64)
-            seg = r.choice([1, 2, 3, 4, 7, 0, -1])
+            seg = r.choice([0, -1] + list(range(1, 17)))  # every small count, not only powers of two (accumulated 1/n steps)
             d.call(f"{cls}.approximate", [curve, R(seg)], lambda im, cv, s: list(cv.approximate(s)))
-            d.call(f"{cls}.approximated_length", [curve, R(r.choice([1, 4, 16, 128]))], lambda im, cv, s: cv.approximated_length(s), ulp=1 << 12)
+            d.call(f"{cls}.approximated_length", [curve, R(r.choice([1, 3, 4, 7, 10, 16, 128]))], lambda im, cv, s: cv.approximated_length(s), ulp=1 << 12)
             d.call(f"{cls}.approximated_length/default", [curve], lambda im, cv: cv.approximated_length(), ulp=1 << 12, cover=f"{cls}.approximated_length")
             if e <= 6 and c >= 0.4 or c < 0.3:
                 dist = r.choice([1.0, 0.1, 0.01]) * (2.0 ** e)
-                d.call(f"{cls}.flattening", [curve, R(dist), R(r.choice([1, 2, 4, 8]))], lambda im, cv, ds, s: list(cv.flattening(ds, s)), ulp=64)
+                d.call(f"{cls}.flattening", [curve, R(dist), R(r.randint(1, 16))], lambda im, cv, ds, s: list(cv.flattening(ds, s)), ulp=64)
+                # no subdivision needed (huge distance): exactly the start segments, the vertex count is the observable
+                d.call(f"{cls}.flattening/coarse", [curve, R(1e9 * (2.0 ** e)), R(r.randint(1, 24))], lambda im, cv, ds, s: list(cv.flattening(ds, s)), ulp=64,
+                       cover=f"{cls}.flattening")
             d.call(f"{cls}.start_end", [curve], lambda im, cv: (cv.control_points[0], cv.control_points[-1]), cover=f"{cls}.control_points")
             d.call(f"{cls}.__reduce__", [curve], lambda im, cv: __import__("pickle").loads(__import__("pickle").dumps(cv)))
             # construction from other input forms / wrong arity
@@ -953,7 +991,7 @@ def diff_bezier(d: Diff, n: int):
             d.call(f"{cls}.__init__", [raw], lambda im, ps, cls=cls: im.classes[cls](ps))
     for _ in range(n):
         a0, a1 = g.angle(), g.angle()
-        seg = r.choice([1, 1, 2, 4, 0])
+        seg = r.choice([1, 1, 2, 3, 4, 5, 7, 0])
         d.call("bezier4p.cubic_bezier_arc_parameters", [R(a0), R(a1), R(seg)], lambda im, s, e, k: list(im.bez4.cubic_bezier_arc_parameters(s, e, k)), ulp=64)
         cen = r.choice([("V3", tuple(float(g.g.dy(r.choice([-3, 0, 6]))) for _ in range(3))), RX((1.0, 2.0)), RX((1.0, 2.0, 3.0)), ("V2!", (3.0, -4.0))])
         d.call("bezier4p.cubic_bezier_from_arc", [cen, R(r.choice([1.0, 2.5, 1e-3, 1e6, 0.0, -1.0, 7])), R(math.degrees(a0)), R(math.degrees(a1)), R(seg)],
@@ -1148,16 +1186,30 @@ def diff_linetypes(d: Diff, n: int):
             dashes = [r.choice([1.0, 0.0])]
         else:
             dashes = []
-            for i in range(r.choice([2, 2, 4, 4, 6, 3])):
-                dashes.append(r.choice([0.0, 0.5, 1.0, 0.25, 0.1, 0.3, 3.0]) if i % 2 == 0 else r.choice([0.25, 0.5, 1.0, 0.1, 0.0]))
+            for i in range(r.choice([2, 2, 4, 4, 6, 3, 3, 5])):  # odd counts too: the dash/gap role alternates per cycle
+                dashes.append(r.choice([0.0, 0.5, 1.0, 0.25, 0.1, 0.3, 0.7, 3.0]) if i % 2 == 0 else r.choice([0.25, 0.5, 1.0, 0.1, 0.2, 0.0]))
         if dashes and sum(dashes) < 0.05:
             continue  # a pattern of (nearly) zero total length does not terminate in reasonable time in either twin
         segs = []
         p = (0.0, 0.0, 0.0)
-        for _ in range(r.randint(1, 3)):
-            q = tuple(p[i] + r.choice([0.0, 1.0, 2.5, -1.0, 0.3, 1e-13, 7.0]) for i in range(3))
-            segs.append((p, q))
-            p = q
+        if dashes and r.random() < 0.5:
+            # polyline along one axis whose vertices fall (in exact arithmetic) on dash boundaries: multiples of single dash
+            # lengths and of partial pattern sums, in non-dyadic decimals, so that the remaining dash length is a rounding residue
+            ax = r.randrange(3)
+            for _ in range(r.randint(1, 5)):
+                j = r.randrange(len(dashes))
+                step = r.choice([dashes[j] * r.randint(1, 7), sum(dashes[: j + 1]) * r.randint(1, 3), sum(dashes) * r.randint(1, 3),
+                                 r.choice([0.1, 0.2, 0.3, 0.7, 1.1, 2.5])])
+                if step <= 0.0:
+                    step = 0.3
+                q = tuple(p[i] + (step if i == ax else 0.0) for i in range(3))
+                segs.append((p, q))
+                p = q
+        else:
+            for _ in range(r.randint(1, 3)):
+                q = tuple(p[i] + r.choice([0.0, 1.0, 2.5, -1.0, 0.3, 1e-13, 7.0]) for i in range(3))
+                segs.append((p, q))
+                p = q
 
         def run(im, dd, ss):
             ltr = im.LTR(dd)
@@ -1274,7 +1326,7 @@ def run_diff(seed: int, quick: bool) -> Diff:
     diff_construct(d, 200 * k)
     diff_bspline(d, 100 * k)
     diff_earcut(d, 100 * k)
-    diff_linetypes(d, 150 * k)
+    diff_linetypes(d, 600 * k)
     diff_np_support(d, 100 * k)
     api_surface(d)
     return d
